@@ -98,6 +98,8 @@ def diagnose_fft(e):
         wr = pow(w, r, P) if r >= 0 else pow(pow(w, P - 2, P), -r, P)
         if e["rot"][i] != e["x"] * wr % P:
             fails.append("rotate")
+        if e.get("polyrot") is not None and -3 <= r <= 3 and e["polyrot"][i] != [e["input"][(t + r) % n] for t in range(n)]:
+            fails.append("polynomial_rotate_panics" if not e["polyrot"][i] else "polynomial_rotate")
         val = 1
         for j in range(n):
             wj = pow(w, j, P)
